@@ -49,17 +49,15 @@ def decoys(tier):
 def run(tier, seed):
     t0 = time.time()
     res = {"bounded": True, "violations": [], "obligations": 0, "discharged": 0}
-    scratch = "/var/tmp/verif-c11-%d" % os.getpid()
-    shutil.rmtree(scratch, ignore_errors=True)
+    from . import e2e
+    bld = e2e.build()
+    if not bld["ok"]:
+        res["undecided"] = "cargo build failed: " + bld["err"]
+        return res
+    scratch = "%s/c11_%d" % (bld["scratch"], int(time.time() * 1000) % 100000)
     os.makedirs(scratch)
     try:
-        subprocess.run(["rsync", "-a", "--exclude", "target", "--exclude", ".git", REPO + "/", scratch + "/repo/"], check=True)
-        env = dict(os.environ, CARGO_TARGET_DIR=scratch + "/target", CARGO_NET_OFFLINE="true")
-        b = subprocess.run(["cargo", "build", "--release", "--offline", "--bin", "breadlog"], cwd=scratch + "/repo", env=env, capture_output=True, text=True)
-        if b.returncode != 0:
-            res["undecided"] = "cargo build failed: " + b.stderr[-300:]
-            return res
-        binp = scratch + "/target/release/breadlog"
+        binp = bld["bin"]
         ds = decoys(tier)
         n = 0
         for structured in (False, True):
